@@ -393,6 +393,12 @@ func (r *Run) explore(g Group, h HarnessSpec, fn *ssa.Function) *HarnessResult {
 				r.mu.Unlock()
 				proc.Close()
 			}()
+			if lf := os.Getenv("GOSYM_SMTLOG"); lf != "" {
+				if f, err := os.Create(fmt.Sprintf("%s.%d", lf, w)); err == nil {
+					proc.Log = f
+					defer f.Close()
+				}
+			}
 			sess := smt.NewSession(proc, smt.NewCtx(), h.TimeoutMS)
 			for {
 				mu.Lock()
@@ -412,7 +418,11 @@ func (r *Run) explore(g Group, h HarnessSpec, fn *ssa.Function) *HarnessResult {
 				inflight++
 				mu.Unlock()
 
+				pstart := time.Now()
 				res := interp.RunPath(cfg, sess, p)
+				if os.Getenv("GOSYM_PATHLOG") != "" {
+					fmt.Fprintf(os.Stderr, "path w%d prefix=%d trail=%d status=%s steps=%d queries=%d forks=%d %.2fs %s\n", w, len(p), len(res.Trail), res.Status, res.Steps, res.Queries, len(res.Forks), time.Since(pstart).Seconds(), firstLines(res.Msg, 9))
+				}
 				if sess.Errors > 0 {
 					res.Unknown += sess.Errors
 					sess.Errors = 0
